@@ -5977,3 +5977,27 @@ pub mod verif_hooks {
     super::is_bignum_value(cddl, ident, v)
   }
 }
+
+/// Verification hooks (second batch): forwarders to the repeating-member occurrence
+/// kernels. Compiled only with `--cfg anweiss_cddl_verif`.
+#[cfg(anweiss_cddl_verif)]
+#[doc(hidden)]
+#[allow(missing_docs)]
+pub mod verif_hooks_occ {
+  use super::CBORValidator;
+  use crate::ast::ValueMemberKeyEntry;
+
+  pub fn validate_repeating_member_count<'a>(
+    v: &mut CBORValidator<'a>,
+    entry: &ValueMemberKeyEntry<'a>,
+    count: usize,
+  ) {
+    v.validate_repeating_member_count(entry, count)
+  }
+  pub fn repeating_member_upper_bound<'a>(entry: &ValueMemberKeyEntry<'a>) -> Option<usize> {
+    CBORValidator::repeating_member_upper_bound(entry)
+  }
+  pub fn error_count(v: &CBORValidator<'_>) -> usize {
+    v.errors.len()
+  }
+}
